@@ -38,7 +38,7 @@ var propTable = map[string]propInfo{
 	}},
 	"C15": {"proof", "Trivia pipeline as contracts: the lexer attaches the comment/blank-line list to the next token (C10 [trivia]); the parser stores consumed tokens verbatim, including the closing-brace token of blocks ([node]/[rbrace] clauses); each printer replays the leading comments of every token it stores exactly once, immediately before that token's mapping and text ([syntax] sequences, incl. the comments before a closing brace/bracket/parenthesis); WriteLeadingComments writes nothing in compact mode and nothing for an empty list, and in pretty mode leaves the writer on a fresh line (pending newline + indentation), so comment text cannot run into code.", []string{
 		"placement 'in front of the same statement' end-to-end is the induction over the tree (Meta M2)",
-		"comments before the end of input are attached to the EOF token, for which Program has no field: they are dropped (known gap, needs an API change; not expressed as an obligation)",
+		"comments before the end of input are attached to the end-of-input token, which ParseProgram now stores in Program.EOF ([eof]) and Program.WriteTo replays after the last statement ([syntax]); defect found and fixed",
 		"'verbatim' is up to trailing spaces (trimmed by the lexer and by cleanEmptyLines)",
 	}},
 	"C16": {"proof", "Every parse function of package parser (statement, expression, prefix, infix, list and helper functions, the interceptor wrappers, the registered-operator closures and the constructor) is verified against the frame contract [ctx]: the context stack on return equals the stack on entry, element-wise, on every return path including early error returns (deferred pops are executed by the engine's defer semantics). PushContext/PopContext/CurrentContext/IsInFunction are verified against exact sequence specifications (append, drop-last, last element, membership). Bracketing is stated as call-site obligations: every statement parsed inside ParseBlockStatement sees entry++[Block], the body of a function declaration/expression is parsed with entry++[Function], and no other parse step changes the stack around its sub-steps ([ctx.stable] at every call). newWithOptions/Build establish [Global]; by the frame contract ParseProgram returns with the stack it started with, for every input.", []string{
